@@ -55,6 +55,9 @@ prop('C09', 'c09', '5 (C09)')
 prop('C10', 'c10', '5 (C10)')
 prop('C11', 'c11', '6 (C11)')
 prop('C13', 'c13', '6 (C13)')
+prop('C15', 'c15', '7 (C15)', gens=('GenSchemaDecl.v',))
+prop('C16', 'c16', '7 (C16)', gens=('GenSchemaDecl.v', 'GenHashTags.v', 'GenArith.v'))
+prop('C19', 'c19', '7 (C19)', gens=('GenFmt.v', 'GenPanicArms.v'))
 prop('C20', 'c20', '5 (C20)')
 
 
@@ -325,7 +328,6 @@ def main():
     with Lock('build'):
         # 1. translate
         tp = translate()
-        broken += ["untranslatable: " + p for p in tp]
         # 2. prove
         obligations, discharged, pb, plog = prove(pid, thorough)
         broken += pb
@@ -337,6 +339,10 @@ def main():
         # 3. model runner
         rp = build_model_runner()
         broken += rp
+        # a fragment the translator cannot read breaks exactly the proofs (and the extracted
+        # model) that depend on it: it is this property's problem only if one of them broke
+        if tp and (pb or rp):
+            broken += ["untranslatable: " + p for p in tp]
         # 4. harness
         exe, err = build_harness('release')
         exe_dbg = None
